@@ -47,12 +47,19 @@ def utilisation(tier, seed, binaries):
     per = {}
     slots = 0
     a0 = 0
+    prtt = 0
+    prtt_dwell = 0
     try:
         for ln in open(path):
             if ln.startswith("note clean-path"):
                 m = re.search(r"profile=(\w+).*delivered/capacity=([0-9.]+)", ln)
                 if m:
                     per.setdefault(m.group(1), []).append(float(m.group(2)))
+            elif ln.startswith("note probe-rtt entered"):
+                prtt += 1
+                m = re.search(r"max-dwell=(\d+)ms", ln)
+                if m:
+                    prtt_dwell = max(prtt_dwell, int(m.group(1)))
             elif ln.startswith("note trace-end"):
                 m = re.search(r"slots-max=(\d+) a0-max=(\d+)", ln)
                 if m:
@@ -64,11 +71,15 @@ def utilisation(tier, seed, binaries):
                                         "(a float-driven performance figure: NO theorem is offered for it)",
             "per_profile": {p: {"traces": len(v), "min": round(min(v), 3), "median": round(sorted(v)[len(v) // 2], 3)}
                             for p, v in sorted(per.items())},
+            "stall_oracle (no theorem)": "on loss-free fixed-capacity traces: (a) never in PROBE_RTT longer than 10 x (200 ms + RTT + "
+                                         "ack-aggregation period + 25 ms), (b) delivered/capacity >= 0.3 over a long window after start-up, "
+                                         "(c) a sender with data and nothing in flight can always send",
+            "traces_that_entered_PROBE_RTT": prtt, "max_PROBE_RTT_dwell_ms": prtt_dwell,
             "max_sampler_slots_in_use": slots, "max_a0_candidates (measured, not bounded by a theorem)": a0}
     return [], [], info
 
 
-_BBR_N = {"quick": 470000, "thorough": 2000000}
+_BBR_N = {"quick": 400000, "thorough": 2000000}
 
 CFG = {
     "props_module": "Hy.Props.C12",
@@ -132,7 +143,9 @@ CFG = {
         "the gain comparisons `pacingGain > 1` / `< 1` are decided on the symbolic gain (highGain > 1 > 1/highGain for the three "
         "profiles: obligation profiles_high_gain; table entries in hundredths)",
         "'does not settle far below capacity on a loss-free path' is a quantitative claim about a float-driven control loop: "
-        "no theorem is offered; delivered/capacity per profile is reported as supporting evidence only",
+        "no theorem is offered; it is covered by supporting evidence (delivered/capacity per profile) + model-free stall oracles on the "
+        "simulator (PROBE_RTT dwell bound, goodput floor 0.3, no deadlock); every 25th trace is a loss-free slow path with ack "
+        "aggregation / delayed acks run for > 12 simulated seconds so that PROBE_RTT is entered and must be left",
     ],
 }
 
